@@ -29,9 +29,13 @@ Open Scope N_scope.
 
 Definition mem (e : expr) (l : list expr) : bool := existsb (expr_eqb e) l.
 
-(** keeps the first occurrence of every element *)
-Definition dedup (l : list expr) : list expr :=
-  fold_left (fun acc x => if mem x acc then acc else acc ++ [x]) l [].
+(** keeps the first occurrence of every element ([seen.insert]) *)
+Fixpoint dedup_from (seen : list expr) (l : list expr) : list expr :=
+  match l with
+  | [] => []
+  | x :: r => if mem x seen then dedup_from seen r else x :: dedup_from (x :: seen) r
+  end.
+Definition dedup (l : list expr) : list expr := dedup_from [] l.
 
 (** all sub-expressions, the expression itself first *)
 Fixpoint subterms (e : expr) : list expr :=
